@@ -10,7 +10,8 @@
 //	             the SAME bus, in this order
 //	    builder: `<b>,<t>`; b: 0 default CAN-ID builder, 1 message id only, 2 node id only, 3 no
 //	             operations (1-3 make the computed CAN-IDs of distinct messages collide);
-//	             t: the BusType value set with Bus.SetType after the bus is built (0 = CAN 2.0A)
+//	             t: the BusType value set with Bus.SetType after the bus is built (0 = CAN 2.0A);
+//	             a third component is the decoration seed (0 = plain bus), see build
 //	    ifaces:  `|`-separated interfaces (`-` = none), each `<node id>=` followed by a
 //	             space-separated list of key:size:cycle:<message id>
 //	    obs:     one per call, `~`-separated:
@@ -51,6 +52,7 @@ type bspec struct {
 	more      []int // further default cycle times for further calls on the same bus
 	builder   int
 	typ       int   // BusType value: 0 = BusTypeCAN2A (the only constant the library defines)
+	dseed     uint64 // != 0: decorate the bus with everything the load must not depend on (see build)
 	nids      []int // node id per interface (nil: i+1)
 	ifaces    [][]mspec
 	family    string
@@ -95,17 +97,25 @@ func (b bspec) input() string {
 	for _, d := range b.defs() {
 		ds = append(ds, strconv.Itoa(d))
 	}
-	return fmt.Sprintf("L;%d;%s;%d,%d;%s", b.baud, strings.Join(ds, ","), b.builder, b.typ, s)
+	return fmt.Sprintf("L;%d;%s;%d,%d,%d;%s", b.baud, strings.Join(ds, ","), b.builder, b.typ, b.dseed, s)
 }
 
 // build constructs the bus through the public API; msgOf maps the created messages to keys.
 type built struct {
-	bus   *acmelib.Bus
-	keys  map[*acmelib.Message]int
-	msgs  []*acmelib.Message
-	nodes []*acmelib.Node
+	bus     *acmelib.Bus
+	keys    map[*acmelib.Message]int
+	msgs    []*acmelib.Message
+	nodes   []*acmelib.Node
+	foreign []*acmelib.Message // messages of interfaces that are NOT on this bus
+	deco    map[string]int     // what the decoration produced (statistics)
 }
 
+// build constructs the bus through the public API.  With b.dseed != 0 everything the load must
+// NOT depend on is varied too, deterministically from dseed (so that a case can be replayed):
+// nodes with up to 3 interfaces of which one (any index) is on this bus and the others carry
+// their own messages on another bus or on no bus; static CAN-IDs (below and above 0x7FF, set
+// before or after AddSentMessage); delay and start delay times below / equal to / above the cycle
+// time; priority, send type, description, signals, receivers, attribute assignments.
 func build(b bspec) (*built, error) {
 	bus := acmelib.NewBus("bus")
 	bus.SetBaudrate(b.baud)
@@ -116,14 +126,59 @@ func build(b bspec) (*built, error) {
 		bus.SetCANIDBuilder(acmelib.NewCANIDBuilder("only_node_id").UseNodeID(0, 8))
 	case 3:
 		bus.SetCANIDBuilder(acmelib.NewCANIDBuilder("no_operations"))
+	case 4:
+		// no 11-bit mask: wide message ids give CAN-IDs above 0x7FF
+		bus.SetCANIDBuilder(acmelib.NewCANIDBuilder("wide").UseMessageID(0, 29).UseMessagePriority(29))
 	}
-	bt := &built{bus: bus, keys: map[*acmelib.Message]int{}}
+	bt := &built{bus: bus, keys: map[*acmelib.Message]int{}, deco: map[string]int{}}
 	keys := bt.keys
+	deco := b.dseed != 0
+	d := &rng{s: b.dseed}
+	other := acmelib.NewBus("other")
+	att, err := acmelib.NewIntegerAttribute("att", 0, 0, 1000)
+	if err != nil {
+		return nil, err
+	}
+	staticBase := []int{0x100, 0x7F0, 0x800, 0x1FFFFF00}[d.below(4)]
+	nForeign := 0
+	var onBus []*acmelib.NodeInterface
 	for i, ms := range b.ifaces {
-		node := acmelib.NewNode(fmt.Sprintf("n%d", i), acmelib.NodeID(b.nid(i)), 1)
+		count, idx := 1, 0
+		if deco {
+			count = 1 + d.below(3)
+			idx = d.below(count)
+		}
+		node := acmelib.NewNode(fmt.Sprintf("n%d", i), acmelib.NodeID(b.nid(i)), count)
 		bt.nodes = append(bt.nodes, node)
+		// the other interfaces of a gateway node: own messages, on another bus or on none
+		joinedOther := false
+		for j, oi := range node.Interfaces() {
+			if j == idx {
+				continue
+			}
+			for k, n := 0, d.below(3); k < n; k++ {
+				nForeign++
+				fm := acmelib.NewMessage(fmt.Sprintf("f%d", nForeign), acmelib.MessageID(1+d.below(200)+1000*k), d.below(9))
+				fm.SetCycleTime(d.below(50))
+				if err := oi.AddSentMessage(fm); err != nil {
+					return nil, err
+				}
+				bt.foreign = append(bt.foreign, fm)
+				bt.deco["foreign-messages"]++
+			}
+			if !joinedOther && d.below(2) == 0 {
+				if err := other.AddNodeInterface(oi); err != nil {
+					return nil, err
+				}
+				joinedOther = true
+				bt.deco["interfaces-on-another-bus"]++
+			} else {
+				bt.deco["interfaces-on-no-bus"]++
+			}
+		}
 		names := map[string]bool{}
-		ni := node.Interfaces()[0]
+		ni := node.Interfaces()[idx]
+		onBus = append(onBus, ni)
 		// half of the interfaces get their messages before joining the bus, half after
 		if i%2 == 0 {
 			if err := bus.AddNodeInterface(ni); err != nil {
@@ -139,8 +194,66 @@ func build(b bspec) (*built, error) {
 			names[name] = true
 			msg := acmelib.NewMessage(name, acmelib.MessageID(m.msgID()), m.size)
 			msg.SetCycleTime(m.cycle)
+			static, staticFirst := deco && d.below(4) == 0, d.below(2) == 0
+			if static && staticFirst {
+				if err := msg.SetStaticCANID(acmelib.CANID(staticBase + m.key)); err != nil {
+					return nil, err
+				}
+			}
 			if err := ni.AddSentMessage(msg); err != nil {
 				return nil, err
+			}
+			if static && !staticFirst {
+				if err := msg.SetStaticCANID(acmelib.CANID(staticBase + m.key)); err != nil {
+					return nil, err
+				}
+			}
+			if static {
+				bt.deco["static-can-ids"]++
+				if staticBase+m.key > 0x7FF {
+					bt.deco["static-can-ids-above-0x7FF"]++
+				}
+			}
+			if deco {
+				eff := m.cycle
+				if eff == 0 {
+					eff = b.def
+				}
+				if eff <= 0 {
+					eff = 100
+				}
+				times := []int{1, eff - 1, eff, eff + 1, 3 * eff, 3600000}
+				if d.below(3) == 0 {
+					msg.SetDelayTime(times[d.below(len(times))])
+					bt.deco["delay-times"]++
+				}
+				if d.below(3) == 0 {
+					msg.SetStartDelayTime(times[d.below(len(times))])
+				}
+				msg.SetPriority(acmelib.MessagePriority(d.below(4)))
+				msg.SetSendType(acmelib.MessageSendType(d.below(5)))
+				if d.below(2) == 0 {
+					msg.SetDesc(fmt.Sprintf("message %d", m.key))
+				}
+				if m.size > 0 && d.below(3) == 0 {
+					st, err := acmelib.NewIntegerSignalType(fmt.Sprintf("t%d", m.key), 1+d.below(m.size*8), d.below(2) == 0)
+					if err != nil {
+						return nil, err
+					}
+					sig, err := acmelib.NewStandardSignal(fmt.Sprintf("s%d", m.key), st)
+					if err != nil {
+						return nil, err
+					}
+					if err := msg.AppendSignal(sig); err != nil {
+						return nil, err
+					}
+					bt.deco["signals"]++
+				}
+				if d.below(4) == 0 {
+					if err := msg.AssignAttribute(att, d.below(1000)); err != nil {
+						return nil, err
+					}
+				}
 			}
 			keys[msg] = m.key
 			bt.msgs = append(bt.msgs, msg)
@@ -148,6 +261,20 @@ func build(b bspec) (*built, error) {
 		if i%2 == 1 {
 			if err := bus.AddNodeInterface(ni); err != nil {
 				return nil, err
+			}
+		}
+	}
+	// receivers: other interfaces of this bus (a message cannot be received by its sender)
+	if deco && len(onBus) > 1 {
+		for _, msg := range bt.msgs {
+			if d.below(3) == 0 {
+				rcv := onBus[d.below(len(onBus))]
+				if rcv != msg.SenderNodeInterface() {
+					if err := msg.AddReceiver(rcv); err != nil {
+						return nil, err
+					}
+					bt.deco["receivers"]++
+				}
 			}
 		}
 	}
@@ -163,11 +290,11 @@ func (bt *built) snapshot() string {
 	var sb strings.Builder
 	fmt.Fprintf(&sb, "baud=%d ifaces=%d", bt.bus.Baudrate(), len(bt.bus.NodeInterfaces()))
 	for _, n := range bt.nodes {
-		fmt.Fprintf(&sb, " node(%s,%d,sent=%d)", n.Name(), uint32(n.ID()), len(n.Interfaces()[0].SentMessages()))
+		fmt.Fprintf(&sb, " node(%s,%d,ifaces=%d)", n.Name(), uint32(n.ID()), len(n.Interfaces()))
 	}
-	for _, m := range bt.msgs {
-		fmt.Fprintf(&sb, " msg(%s,id=%d,canid=%d,size=%d,cycle=%d,prio=%d,static=%v,sender=%v)", m.Name(), uint32(m.ID()), uint32(m.GetCANID()),
-			m.SizeByte(), m.CycleTime(), uint32(m.Priority()), m.HasStaticCANID(), m.SenderNodeInterface() != nil)
+	for _, m := range append(append([]*acmelib.Message{}, bt.msgs...), bt.foreign...) {
+		fmt.Fprintf(&sb, " msg(%s,id=%d,canid=%d,size=%d,cycle=%d,delay=%d,start=%d,send=%d,prio=%d,static=%v,sender=%v,recv=%d,sigs=%d)", m.Name(), uint32(m.ID()), uint32(m.GetCANID()),
+			m.SizeByte(), m.CycleTime(), m.DelayTime(), m.StartDelayTime(), int(m.SendType()), uint32(m.Priority()), m.HasStaticCANID(), m.SenderNodeInterface() != nil, len(m.Receivers()), len(m.Signals()))
 	}
 	return sb.String()
 }
@@ -258,7 +385,12 @@ func call(bt *built, def int) (res result, panicked any) {
 	for _, ml := range mls {
 		k, ok := keys[ml.Message]
 		if !ok {
-			k = -1
+			k = -1 // not a message of this harness at all
+			for _, f := range bt.foreign {
+				if f == ml.Message {
+					k = -2 // sent through an interface that is not on this bus
+				}
+			}
 			res.unknown = true
 		}
 		res.keys = append(res.keys, k)
@@ -356,6 +488,21 @@ func (s *state) run(b bspec) *big.Rat {
 		s.hist["calls-per-bus/1"]++
 	}
 	s.hist[fmt.Sprintf("builder/%d", b.builder)]++
+	if b.dseed != 0 {
+		s.hist["decorated-buses"]++
+	}
+	for k, v := range bt.deco {
+		s.hist["decoration/"+k] += v
+	}
+	wide := 0
+	for _, m := range bt.msgs {
+		if m.GetCANID() > 0x7FF {
+			wide++
+		}
+	}
+	if wide > 0 {
+		s.hist["buses-with-can-ids-above-0x7FF"]++
+	}
 	// distinct messages with equal computed CAN-IDs / equal names (legal)
 	ids, names := map[uint32]int{}, map[string]int{}
 	for _, m := range bt.msgs {
@@ -479,7 +626,7 @@ func (s *state) checkCall(b bspec, def int, input string, res result) *big.Rat {
 		}
 	}
 	if !permOK {
-		s.fail("each-message-once", n, fmt.Sprintf("entries list messages %v, sent messages are keys 0..%d once each; case %s", res.keys, n-1, input))
+		s.fail("each-message-once", n, fmt.Sprintf("entries list messages %v (-2: a message sent through an interface that is not on this bus, -1: unknown object), the messages sent through interfaces attached to this bus are keys 0..%d once each; case %s", res.keys, n-1, input))
 	}
 
 	// ---- numbers: load, per-message rate and share, against the documented formula (exact)
@@ -568,7 +715,7 @@ func (s *state) monotone(r *rng, b bspec, load *big.Rat) {
 	n := len(msgs)
 	pick := msgs[r.below(n)].key
 	variant := func(f func(m *mspec)) bspec {
-		v := bspec{baud: b.baud, def: b.def, family: b.family, builder: b.builder, nids: b.nids, typ: b.typ}
+		v := bspec{baud: b.baud, def: b.def, family: b.family, builder: b.builder, nids: b.nids, typ: b.typ, dseed: b.dseed}
 		for _, i := range b.ifaces {
 			ni := append([]mspec{}, i...)
 			for j := range ni {
@@ -775,7 +922,10 @@ func (r *rng) decorate(b *bspec) {
 	case x < 9:
 		b.builder = 2
 	default:
-		b.builder = 3
+		b.builder = 3 + r.below(2)
+	}
+	if r.below(10) < 7 {
+		b.dseed = 1 + r.next()>>1
 	}
 	if r.below(10) < 4 {
 		// node ids that agree in the low 4 bits (all, or in two groups); message ids from a small
@@ -792,6 +942,12 @@ func (r *rng) decorate(b *bspec) {
 			used := map[int]bool{}
 			for j := range b.ifaces[i] {
 				mid := 1 + r.below(3) + 128*r.below(3)
+				for used[mid] {
+					mid += 128
+				}
+				if r.below(4) == 0 {
+					mid += 0x800 * (1 + r.below(1000)) // does not fit in 11 bits
+				}
 				for used[mid] {
 					mid += 128
 				}
@@ -933,6 +1089,10 @@ func parseCase(line string) bspec {
 	b := bspec{baud: atoi(f[1]), def: atoi(ds[0]), builder: atoi(bt[0]), family: "replay"}
 	if len(bt) > 1 {
 		b.typ = atoi(bt[1])
+	}
+	if len(bt) > 2 {
+		ds, _ := strconv.ParseUint(bt[2], 10, 64)
+		b.dseed = ds
 	}
 	for _, d := range ds[1:] {
 		b.more = append(b.more, atoi(d))
